@@ -3,9 +3,9 @@ from props import sched_common as sc, sched_oracles as so
 
 PID = 'C03'
 META = {
-    'text': 'Proved for every engine/history: a released unit is handed to at most one worker and otherwise stays queued (permutation per tick, one message per worker); no dispatch releases a target its own node is still doing (a re-request of an executing unit waits); every result whose unit is still counted as doing finds its job and is applied exactly once (one history entry, then update or purge); the crew view equals the in-flight units step by step as long as replies come from the only holder. The unconditional single-flight / never-dropped statement is refuted by the witness of the open known finding (purge clears doing of an executing descendant -> duplicate flight, dropped second reply, wrong crew view). Model tied to the code by step correspondence; oracle with its own in-flight multiset on the implementation.',
+    'text': 'Proved for every engine/history: a released unit is handed to at most one worker and otherwise stays queued (permutation per tick, one message per worker); no dispatch releases a target its own node is still doing (a re-request of an executing unit waits); every result whose unit is still counted as doing finds its job and is applied exactly once (one history entry, then update or purge); the crew view equals the in-flight units step by step as long as replies come from the only holder. The unconditional single-flight / never-dropped statement is refuted by the witness of the open known finding (purge clears doing of an executing descendant -> duplicate flight, dropped second reply, wrong crew view). Model tied to the code by step correspondence; oracle with its own in-flight multiset on the implementation. The todo sets: dawgie.util.fifo.Unique is regenerated from the python source on every run by a fail-closed translator (Gen/FifoGen.v) and PROVED to be the list-set library of the model (Sched.add/addl/rem/mem) for every object a program can build, discard never raising (C03_unique_*_is_source, C03_unique_is_todo_list).',
     'note': 'Trusted: Coq kernel; Sched.v + drive_sched.py correspondence (fake transports, chronicle recorder). Partial: single flight and "never dropped" hold only while doing is exact for the unit (i.e. no purge removed an executing descendant) -- open known finding C03/duplicate-flight; rebuilds (Build) are modelled without farm.clear().',
-    'technique': 'Coq proof (invariants over histories; refutation witness by vm_compute) over hand-written executable model + model/implementation correspondence + implementation-side ghost oracle',
+    'technique': 'Coq proof (invariants over histories; refutation witness by vm_compute) over hand-written executable model + source-generated definitions (fifo.Unique) proved equal to the model functions + model/implementation correspondence + implementation-side ghost oracle',
 }
 
 
@@ -28,12 +28,18 @@ def nontrivial(r):
 
 
 def run(ctx):
+    # source tie by translation + proof (props/gen_tie.py): fifo.Unique (the
+    # todo sets) is regenerated before the proofs are checked, validated after
+    from props import gen_tie
+    g = None if ctx.replay else gen_tie.fifo_generate(ctx)
     sc.sched_check(
         ctx, so.c03, ['sched', 'mixed'], nontrivial,
         witnesses=['duplicate-flight'],
         rule='random engines x random histories biased to re-requesting units that are queued or in flight, replies in any order; corpus of directed scenarios first. Non-trivial = a unit was (re)requested while released or in flight, or two replies for the same job were delivered')
     if not ctx.replay and not ctx.nviol:
         sc.fault_study(ctx, so.c03)
+    if g is not None:
+        gen_tie.fifo_validate(ctx, g, PID)
 
 
 def replay(ctx, obj):
